@@ -1140,18 +1140,18 @@ Lemma prefixb_cons_same x p s : prefixb (x :: p) (x :: s) = prefixb p s.
 Proof. cbn [prefixb]. rewrite Z.eqb_refl. reflexivity. Qed.
 
 Lemma xml_loop_run raw ename erest : Forall (fun c => is_letter c = true) ename -> to_hash (map lower ename) = Ok raw ->
-  (exists c r, erest = c :: r /\ is_letter c = false) ->
+  (erest = [] \/ exists c r, erest = c :: r /\ is_letter c = false) ->
   forall n inner, (length inner <= n)%nat -> forall z it q sk fuel,
   reads z (inner ++ 60 :: 47 :: ename ++ erest) -> xml_wf n raw it q sk inner = true -> (length inner < fuel)%nat ->
   loop fuel (xml_body raw) (z, it, q, sk) = Ok (inl (mv z (len inner + 2 + len ename))).
 Proof.
-  intros Hlet Hhash (ce & re & Ee & Hce). induction n as [|n IH]; intros inner Hn z it q sk fuel Hr Hwf Hf.
+  intros Hlet Hhash Herest. induction n as [|n IH]; intros inner Hn z it q sk fuel Hr Hwf Hf.
   all: destruct fuel as [|k]; [lia|]; cbn [loop].
   all: destruct inner as [|c t].
   1,3: (* at the end tag *)
     cbn [xml_wf] in Hwf; apply andb_true_iff in Hwf; destruct Hwf as [Hwf Hsk]; apply andb_true_iff in Hwf; destruct Hwf as [Hit Hq];
     apply negb_true_iff in Hit; apply Z.eqb_eq in Hq; apply Z.eqb_eq in Hsk; subst it q sk;
-    cbn [app] in Hr; rewrite (xml_body_endtag raw z ename erest Hr Hlet) by (right; rewrite Ee; eauto);
+    cbn [app] in Hr; rewrite (xml_body_endtag raw z ename erest Hr Hlet) by exact Herest;
     rewrite Hhash; cbn [rbind]; rewrite Z.eqb_refl; cbn [rbind]; change (len (@nil Z)) with 0; reflexivity.
   - cbn [length] in Hn. lia.
   - cbn [length] in Hn, Hf. cbn [app] in Hr.
@@ -1495,7 +1495,7 @@ Proof.
     inversion Hews as [|? ? Hw _]; subst. unfold is_ws in Hw. unfold is_letter.
     repeat (apply orb_true_iff in Hw; destruct Hw as [Hw|Hw]); apply Z.eqb_eq in Hw; subst w; reflexivity. }
   unfold shift_xml. rewrite loop_with_no_tmpl.
-  rewrite (xml_loop_run h ename (ews ++ 62 :: rest) Helet Heh Herest (length inner) inner (le_n _) z2 true 0 0 (fuel_of z2) Hr3 Hinner).
+  rewrite (xml_loop_run h ename (ews ++ 62 :: rest) Helet Heh (or_intror Herest) (length inner) inner (le_n _) z2 true 0 0 (fuel_of z2) Hr3 Hinner).
   2:{ pose proof (fuel_of_enough z2 tl (len inner) Hr3 ltac:(lia)) as Hfe. unfold len in Hfe. rewrite Nat2Z.id in Hfe. exact Hfe. }
   cbn [rbind fst snd].
   pose proof (reads_mv _ _ (len inner + 2 + len ename) Hr3 ltac:(lia)) as Hr4.
@@ -1513,6 +1513,96 @@ Proof.
   rewrite shiftv_spec by exact Hw5. rewrite Hle. cbn [rbind fst snd orb].
   unfold z2, lx_lower. cbn [mv lbuf lstart lpos so sn skip]. rewrite Ht, Hcl, Hp.
   replace (len pre + 1 + len name + (len inner + 2 + len ename) + (len ews + 1) - len pre) with n by (unfold n; lia).
+  eexists. split; [reflexivity|]. cbn [ltext lz intag rawtag lerr lbuf]. repeat split.
+Qed.
+
+Lemma xml_close_cut_run z ews : reads z ews -> Forall (fun c => c <> 62 /\ c <> 0) ews ->
+  loop (fuel_of z) xml_close_body z = Ok (inr (mv z (len ews))).
+Proof.
+  intros Hr Hb. pose proof (len_nonneg ews).
+  apply (loop_scan _ z (len ews)); [lia| | |eapply fuel_of_enough; [exact Hr|lia]].
+  - intros i Hi. destruct (peekz_in ews i Hi) as (c & Hc & Hin). rewrite Forall_forall in Hb. destruct (Hb c Hin) as [H62 H0'].
+    unfold xml_close_body. rewrite pkr_mv0, (reads_pkr z _ i c Hr Hc). cbn [rbind].
+    replace (c =? 62) with false by (symmetry; apply Z.eqb_neq; exact H62).
+    replace (c =? 0) with false by (symmetry; apply Z.eqb_neq; exact H0'). rewrite mv_mv. reflexivity.
+  - unfold xml_close_body. rewrite pkr_mv0. destruct (reads_end z ews Hr) as [Hp _]. unfold pkr. rewrite Hp. reflexivity.
+Qed.
+
+(* "<svg" inner "</svg" ews, cut by the end of input inside the end tag: one token, no error *)
+Lemma next_foreign_cut_end d l pre name inner ename ews h :
+  at_input d l pre (60 :: name ++ inner ++ 60 :: 47 :: ename ++ ews) -> intag l = false -> rawtag l = 0 ->
+  lerr l = false ->
+  (exists c nm, name = c :: nm /\ is_letter c = true) -> Forall namechar name ->
+  to_hash (map lower name) = Ok h -> to_hash (map lower ename) = Ok h -> is_xml_hash h = true ->
+  (exists c r, inner = c :: r /\ (is_ws c = true \/ c = 62)) -> xml_wf (length inner) h true 0 0 inner = true ->
+  Forall (fun c => is_letter c = true) ename -> Forall (fun c => is_ws c = true) ews ->
+  let n := 1 + len name + len inner + 2 + len ename + len ews in
+  exists l', next no_tmpl l = Ok (foreign_ty h, Some (mkSl (len pre) n), l') /\
+    ltext l' = Some (mkSl (len pre + 1) (len name)) /\
+    lbuf (lz l') = lower_view (lbuf (lz l)) (mkSl (len pre + 1) (len name)) /\
+    intag l' = false /\ rawtag l' = 0 /\ lerr l' = false.
+Proof.
+  intros Hat Hit Hraw Hle (c & nm & Ename & Hlet) Hname Hh Heh Hxml (ci & ri & Ei & Hci) Hinner Helet Hews n.
+  pose proof (at_input_reads _ _ _ _ Hat) as Hr.
+  pose proof Hat as (Hi & Hcl & Hd & Hp).
+  pose proof (len_nonneg name). pose proof (len_nonneg inner). pose proof (len_nonneg ename). pose proof (len_nonneg ews).
+  set (tl := inner ++ 60 :: 47 :: ename ++ ews) in *.
+  assert (Hltl : len tl = len inner + 2 + len ename + len ews) by (unfold tl; rewrite len_app, !len_cons, len_app; lia).
+  assert (Hstop : tag_stop tl).
+  { right. unfold tl. rewrite Ei. cbn [app]. exists ci, (ri ++ 60 :: 47 :: ename ++ ews). split; [reflexivity|].
+    destruct Hci as [Hw| ->]; [left; exact Hw|right; left; reflexivity]. }
+  unfold next. cbn [lz rawtag intag lerr ltext lattr lhas]. rewrite Hit, Hraw. cbn [Z.eqb negb].
+  unfold next_content. cbn [lz rawtag intag lerr ltext lattr lhas].
+  assert (Hr' : reads (lz l) (60 :: c :: nm ++ tl)) by (rewrite Ename in Hr; exact Hr).
+  destruct (text_loop_dispatch (lz l) c (nm ++ tl) Hr' Hcl) as [Hdisp|Hno]; [|exfalso; apply Hno; tauto].
+  rewrite Hlet in Hdisp. rewrite Hdisp. cbn [rbind].
+  pose proof (reads_mv _ _ 1 Hr ltac:(rewrite len_cons; pose proof (len_nonneg (name ++ tl)); lia)) as Hr1.
+  change (skipz 1 (60 :: name ++ tl)) with (name ++ tl) in Hr1.
+  unfold shift_starttag. rewrite (starttag_loop_run _ name tl Hr1 Hname Hstop). cbn [rbind].
+  pose proof (reads_mv _ _ (len name) Hr1 ltac:(rewrite len_app; lia)) as Hr2. rewrite skipz_app_len in Hr2.
+  destruct Hr2 as [Hw2 Hrem2].
+  rewrite lexeme_from_spec by (exact Hw2 || (cbn [mv lpos lstart]; lia)). cbn [rbind mv lstart lpos].
+  set (t := mkSl (lstart (lz l) + 1) (lpos (lz l) + 1 + len name - lstart (lz l) - 1)).
+  assert (Ht : t = mkSl (len pre + 1) (len name)) by (unfold t; rewrite Hcl, Hp; f_equal; lia).
+  pose proof (lx_wf_len _ Hw2) as [Hbl _].
+  assert (Hlim : len pre + 1 + len name + len tl <= lx_len (lz l)).
+  { pose proof (len_rem _ Hw2) as Hlr. rewrite Hrem2 in Hlr. cbn [mv lpos] in Hlr. unfold lx_len in *. cbn [mv lbuf] in Hlr. lia. }
+  assert (Hbytes : view_bytes (lbuf (lx_lower (mv (mv (lz l) 1) (len name)) t)) t = map lower name).
+  { unfold lx_lower. cbn [lbuf mv]. rewrite Ht. rewrite view_bytes_lower_view by (cbn [so sn]; pose proof (len_nonneg pre); unfold lx_len in *; cbn [mv lbuf] in Hbl; lia).
+    f_equal. unfold view_bytes. cbn [so sn]. replace (len pre + 1 + len name) with (len pre + (1 + len name)) by lia.
+    rewrite (at_input_slice d l pre _ 1 (1 + len name) Hat) by (rewrite ?len_cons, ?len_app; lia).
+    exact (slice_mid' [60] name tl). }
+  rewrite Hbytes, Hh. cbn [rbind]. rewrite (is_xml_raw h Hxml), Hxml.
+  (* shiftXML *)
+  set (z2 := lx_lower (mv (mv (lz l) 1) (len name)) t).
+  assert (Hr3 : reads z2 tl).
+  { apply reads_lower; [split; assumption|rewrite Ht; cbn; pose proof (len_nonneg pre); lia|rewrite Ht; cbn; lia|].
+    rewrite Ht. cbn [so sn mv lpos]. lia. }
+  assert (Herest : ews = [] \/ exists c0 r0, ews = c0 :: r0 /\ is_letter c0 = false).
+  { destruct ews as [|w ews']; [left; reflexivity|right]. exists w, ews'. split; [reflexivity|].
+    inversion Hews as [|? ? Hw _]; subst. unfold is_ws in Hw. unfold is_letter.
+    repeat (apply orb_true_iff in Hw; destruct Hw as [Hw|Hw]); apply Z.eqb_eq in Hw; subst w; reflexivity. }
+  unfold shift_xml. rewrite loop_with_no_tmpl.
+  rewrite (xml_loop_run h ename ews Helet Heh Herest (length inner) inner (le_n _) z2 true 0 0 (fuel_of z2) Hr3 Hinner).
+  2:{ pose proof (fuel_of_enough z2 tl (len inner) Hr3 ltac:(lia)) as Hfe. unfold len in Hfe. rewrite Nat2Z.id in Hfe. exact Hfe. }
+  cbn [rbind fst snd].
+  pose proof (reads_mv _ _ (len inner + 2 + len ename) Hr3 ltac:(lia)) as Hr4.
+  assert (Hsk : skipz (len inner + 2 + len ename) tl = ews).
+  { unfold tl. replace (inner ++ 60 :: 47 :: ename ++ ews) with ((inner ++ 60 :: 47 :: ename) ++ ews)
+      by (rewrite <- app_assoc; cbn [app]; rewrite <- ?app_assoc; reflexivity).
+    replace (len inner + 2 + len ename) with (len (inner ++ 60 :: 47 :: ename)) by (rewrite len_app, !len_cons; lia). apply skipz_app_len. }
+  rewrite Hsk in Hr4.
+  assert (Hews2 : Forall (fun c0 => c0 <> 62 /\ c0 <> 0) ews).
+  { eapply Forall_impl; [|exact Hews]. cbn beta. intros a Ha. unfold is_ws in Ha. 
+    repeat (apply orb_true_iff in Ha; destruct Ha as [Ha|Ha]); apply Z.eqb_eq in Ha; subst a; split; discriminate. }
+  unfold with_tmpl_lx; rewrite loop_with_no_tmpl; rewrite (xml_close_cut_run _ ews Hr4 Hews2). cbn [rbind fst snd].
+  destruct Hr4 as [Hw4 Hrem4].
+  destruct (rem_mv _ (len ews) Hw4) as [_ Hw5]; [rewrite Hrem4; lia|].
+  assert (Hend : at_end (mv (mv z2 (len inner + 2 + len ename)) (len ews)) = true).
+  { destruct (reads_end _ _ (conj Hw4 Hrem4)) as [_ He]. unfold at_end. apply Z.leb_le. cbn [mv lpos lbuf] in *. unfold lx_len in *. cbn [mv lbuf] in *. lia. }
+  rewrite shiftv_spec by exact Hw5. rewrite Hle, Hend. cbn [rbind fst snd orb negb].
+  unfold z2, lx_lower. cbn [mv lbuf lstart lpos so sn skip]. rewrite Ht, Hcl, Hp.
+  replace (len pre + 1 + len name + (len inner + 2 + len ename) + len ews - len pre) with n by (unfold n; lia).
   eexists. split; [reflexivity|]. cbn [ltext lz intag rawtag lerr lbuf]. repeat split.
 Qed.
 
